@@ -35,10 +35,15 @@ def run(ck):
                       "copy_file is run with the kernel copy available and with copy_file_range forced to EXDEV/EINVAL/ENOSYS (the user-space loop); plus a static scan of src/ for libc allocation calls")
     ck.assumptions += ["allocator.c is the only place allowed to call the C library's allocation functions"]
     if not ck.build_driver(): return
-    if not ck.prove(["ZixModel.Properties.C08", "ZixModel.Properties.C08Avl", "ZixModel.Properties.C08Hash"]):
+    if not ck.prove(["ZixModel.Properties.C08", "ZixModel.Properties.C08Avl", "ZixModel.Properties.C08Hash", "ZixModel.Properties.C07Env"]):
         ck.report_proof_failure("allocator-discipline theorems no longer build")
     static_scan(ck)
     q = ck.tier == "quick"
+    # environment expansion: allocator events per call (every block released once or returned: expandA_atomic_leak_free)
+    import c16 as envgen
+    eexe = envgen.build_harness(ck)
+    if not eexe: return
+    ck.kcompare("env", eexe, "c16", envgen.alloc_histories(ck), corpus_prefix="env", what="allocator events of zix_expand_environment_strings differ from the model")
     G = ["-DV_GUARD_DEFAULT"]
     # ---- B-tree (events compared with the model) -------------------------------------------------
     for page, mh in [(64, 24), (256, 24)]:
